@@ -659,7 +659,11 @@ func hashlogMain(args []string) int {
 	for i := uint64(0); i < *n; i++ {
 		rs := runSeed(env.Seed, *prop, *phase, i)
 		res := executeRun(c, *phase, i, NewTape(rs, nil), *world, stats, false)
-		fmt.Fprintf(&sb, "%d %016x %d %d\n", i, res.EventHash, res.Steps, len(res.Violations))
+		steps := res.Steps
+		if *prop == "C20" || *prop == "C18" {
+			steps = 0 // absolute patterns walk real directories outside the world (/, /dev, /dev/shm): step counts depend on them
+		}
+		fmt.Fprintf(&sb, "%d %016x %d %d\n", i, res.EventHash, steps, len(res.Violations))
 	}
 	os.WriteFile(*out, []byte(sb.String()), 0644)
 	return 0
